@@ -184,6 +184,10 @@ Errs(cat, files, e) ==
             ELSE IF e.f \notin cat[e.c].idx THEN {"ErrIndexNotExist"} ELSE {}
       [] e.op \in {"HasIndex", "ListIndexes", "FindById",
                    "FindAll", "ForEach", "FindFirst", "Count", "Exists", "Derived"} -> NoColl(cat, e.c)
+      \* IterateDocs whose consumer returns an error at its j-th call: that error comes back
+      [] e.op = "IterateDocs" ->
+            IF ~HasColl(cat, e.c) THEN {"ErrCollectionNotExist"}
+            ELSE IF e.j > 0 /\ e.j <= CountOf(cat[e.c].docs, QueryOf(e)) THEN {"consumer"} ELSE {}
       [] e.op = "Export" -> NoColl(cat, e.c)
       [] e.op = "Import" ->
             (IF HasColl(cat, e.c) THEN {"ErrCollectionExist"} ELSE {})
@@ -274,7 +278,7 @@ WriteOps == {"CreateCollection", "DropCollection", "Insert", "InsertOne", "Save"
              "UpdateById", "Update", "UpdateFunc", "Delete", "DeleteById", "CreateIndex",
              "DropIndex", "Import", "CreateByQuery"}
 ReadOps  == {"HasCollection", "ListCollections", "HasIndex", "ListIndexes", "FindById", "FindAll",
-             "ForEach", "FindFirst", "Count", "Exists", "Derived", "Export"}
+             "ForEach", "IterateDocs", "FindFirst", "Count", "Exists", "Derived", "Export"}
 
 ---------------------------------------------------------------------------
 (* State invariants of the abstract database (C12, C13)                    *)
